@@ -341,7 +341,12 @@ impl FreeList {
                 && i + 1 == to_push.len();
 
             if head_full || fragmentation {
-                encoded.extend(self.encode_head(page_pool));
+                // A head which is already full before the first push was carried over untouched
+                // from the previous state. Its on-disk copy is current and belongs to the
+                // previous state, so it must not be rewritten in place.
+                if !(head_full && i == 0) {
+                    encoded.extend(self.encode_head(page_pool));
+                }
                 // UNWRAP: we've always allocated enough PNs for all appended PNs.
                 let new_head_pn = new_pages.next().unwrap();
                 self.portions.push((new_head_pn, Vec::new()));
